@@ -364,7 +364,7 @@ class ODE:
 
         return (
             __o.comments == self.comments
-            and __o.components == self.components
+            and {c.name: c for c in __o.components} == {c.name: c for c in self.components}
             and __o.name == self.name
         )
 
